@@ -35,6 +35,22 @@ BUILT = {
    technique="TLA+ spec Timer.tla model-checked with TLC over all stop/restart histories within bounds + TLC trace validation of the real Timer on emitted and random histories",
    text="Exhaustive TLC run over all histories of <=4 outside stop/restart calls and scripted calls from the timer's own callback (before, exactly at and after expiries, one-shot and auto-restart, T/tau in 1..3) checks FiresExactlyAtExpiry, OncePerExpiry, StoppedNeverFires, RestartRebases, NeverRaises, ArgsPassed; emitted and random longer histories are replayed on the real Timer (callers created before and after the timer so both same-instant orders occur; scalar and list args) and each recorded trace must be a behaviour of the specification.",
    note="dyadic time lattice; re-arming an already expired one-shot timer is left open as the property does", design="6/C19"),
+
+ "C10": dict(
+   technique="TLA+ spec Wire.tla (+CableMC) model-checked with TLC incl. liveness + TLC trace validation of the real Wire/Cable with scripted delay and loss draws",
+   text="Exhaustive TLC runs (lossless, lossy, early-draw and two-direction cable configurations) check the delivery law max(a+d, previous delivery), NotBefore, InOrder, NothingOverdue, ExactlyOnce, loss rules, one draw per packet and that the system drains; TLC-emitted and random workloads (bursts, decreasing delays, arrivals at delivery instants, re-sent packet objects, echo) are replayed on the real Wire and Cable with the harness supplying every delay and uniform draw, and each recorded trace must be a behaviour of the specification.",
+   note="dyadic time lattice; the decision at u = p exactly and the moment of the delay draw inside an instant are left open as the property does; loss frequencies are not examined",
+   design="6/C10"),
+ "C11": dict(
+   technique="TLA+ specs TokenBucket.tla and TwoRateTB.tla model-checked with TLC + TLC trace validation of the real TokenBucket/TwoRateTokenBucket",
+   text="Exhaustive TLC runs check the conformance inequality over the history of debit instants, ReleaseLaw/EarliestRelease, PeakSpacing, FIFO, losslessness and for the two-rate bucket the colour rule, shaping law and GreenConformsToCIR; emitted and random lattice workloads (packets larger than the bucket, idle periods, bursts, arrivals at release instants) are replayed on the real classes, binding departure instants, colours and the token levels the attributes denote.",
+   note="integer lattice (rate = 8R); the committed level after a yellow/red packet is left open as the property does; serial one-packet-at-a-time reading recorded as an assumption",
+   design="6/C11"),
+ "C18": dict(
+   technique="TLA+ specs Routing.tla, FatTree.tla, FatTreeNet.tla model-checked with TLC; TLC evaluates structure and FIB-walk properties on graphs/tables exported from the real FatTree(k); TLC trace validation of the real demuxes/switches/hub/splitters and of end-to-end fat-tree simulations",
+   text="TLC enumerates all small forwarding tables, output lists, end-device maps, hub populations and splitter fan-outs against the routing relations (exactly one output or none, end device before table, empty table valid, unknown flow to default, hub all-but-sender through port devices, splitter original first and independent copies); put-level traces of the real classes are validated against the same module. For k in {2,4,6,8} (quick: fewer) the networkx graph, flows and FIBs exported from the real FatTree are checked by TLC for the k-ary fat-tree structure, shortest paths and the hop-by-hop FIB walk (and reverse ACK class); end-to-end simulations on the real switches are validated by a Deliver trace spec.",
+   note="negative flow ids and table entries naming non-existent ports are outside the stated domain; SimplePacketSwitch is read as routing by FlowDemux rules",
+   design="6/C18"),
  "C12": dict(
    technique="TLA+ spec Sched.tla (policy ANY) model-checked with TLC + TLC trace validation of all six real schedulers and the Monitor",
    text="Exhaustive TLC run of the timed scheduler specification with the selection rule left open checks, over all workloads within the bounds, the start law (k-th transmission starts at max(end of k-1, k-th arrival) and lasts 8*size/rate: work-conserving, non-preemptive, rate-exact), per-flow FIFO, exactly-once, counter exactness; emitted and seeded random workloads (bursts, arrivals at transmission ends, idle gaps, several flows per class) are executed on the real SP/WFQ/VC/DRR/RR/WRR and each recorded trace (taps, size()/byte_size()/total_packets/packet_in_service after every action, Monitor samples) must be a behaviour of that specification.",
